@@ -50,7 +50,7 @@ def inventory() -> set[str] | None:
     """qualified names `path::qualname` of the functions of the reference tree; None when the file is absent"""
     global _INV
     if _INV is None:
-        p = os.path.join(os.path.dirname(os.path.abspath(__file__)), 'inventory.json')
+        p = os.environ.get('VERIF_INVENTORY') or os.path.join(os.path.dirname(os.path.abspath(__file__)), 'inventory.json')
         try:
             with open(p, encoding='utf-8') as f:
                 _INV = set(json.load(f))
@@ -1364,19 +1364,23 @@ def _tail_returns(stmts: list, res: str):
 def _inline_body(helper: ast.FunctionDef, call: ast.Call, is_method: bool, tag: str, line_of):
     """(statements, result expression or None) of the helper applied to the arguments of `call`, or None when it cannot be inlined"""
     a = helper.args
-    if a.vararg or a.kwarg or a.posonlyargs or a.kwonlyargs:
+    if a.vararg or a.kwarg:
         return None
-    params = [x.arg for x in a.args]
+    positional = [x.arg for x in a.posonlyargs + a.args]
     if is_method:
-        params = params[1:]
-    if any(isinstance(x, ast.Starred) for x in call.args) or any(k.arg is None for k in call.keywords) or len(call.args) > len(params):
+        positional = positional[1:]
+    kwonly = [x.arg for x in a.kwonlyargs]
+    params = positional + kwonly
+    if any(isinstance(x, ast.Starred) for x in call.args) or any(k.arg is None for k in call.keywords) or len(call.args) > len(positional):
         return None
-    bound: dict[str, ast.expr] = dict(zip(params, call.args))
+    bound: dict[str, ast.expr] = dict(zip(positional, call.args))
+    posonly = {x.arg for x in a.posonlyargs}
     for k in call.keywords:
-        if k.arg not in params or k.arg in bound:
+        if k.arg not in params or k.arg in bound or k.arg in posonly:
             return None
         bound[k.arg] = k.value
-    defaults = dict(zip(params[len(params) - len(a.defaults):], a.defaults)) if a.defaults else {}
+    defaults = dict(zip(positional[len(positional) - len(a.defaults):], a.defaults)) if a.defaults else {}
+    defaults.update({n: d for n, d in zip(kwonly, a.kw_defaults) if d is not None})
     for p in params:
         if p not in bound:
             if p not in defaults:
@@ -1597,6 +1601,13 @@ def inline_unknown_helpers(tree: ast.Module, path: str) -> None:
                     if hh is None:
                         continue
                     if _conditionally_evaluated(st, sub):
+                        # a helper that is one expression of its (plain) arguments can be written in its place wherever the call stands
+                        counter[0] += 1
+                        r = _inline_body(hh[0], sub, hh[1], f'h{counter[0]}', st.lineno)
+                        if r is not None and not r[0] and r[1] is not None:
+                            hh[0]._verif_expanded = getattr(hh[0], '_verif_expanded', 0) + 1
+                            _replace_node(st, sub, r[1])
+                            changed = True
                         continue
                     counter[0] += 1
                     r = _inline_body(hh[0], sub, hh[1], f'h{counter[0]}', st.lineno)
@@ -1729,6 +1740,103 @@ def _inline_new_constants(tree: ast.Module, path: str, inv) -> None:
     tree = _FoldStrings().visit(tree)
 
 
+def _is_chain(e) -> bool:
+    while isinstance(e, ast.Attribute):
+        e = e.value
+    return isinstance(e, ast.Name)
+
+
+def _qualified_functions(tree: ast.Module):
+    for n in tree.body:
+        if isinstance(n, ast.FunctionDef):
+            yield n.name, n
+        elif isinstance(n, ast.ClassDef):
+            for f in n.body:
+                if isinstance(f, ast.FunctionDef):
+                    yield f'{n.name}.{f.name}', f
+
+
+def alias_entries(tree: ast.Module, path: str) -> set[str]:
+    """`path::qualname::~x=chain` for every local alias `x = <name or attribute chain>` of the functions of the module"""
+    out = set()
+    for q, fn in _qualified_functions(tree):
+        for st in ast.walk(fn):
+            if isinstance(st, (ast.Assign, ast.AnnAssign)) and getattr(st, 'value', None) is not None:
+                t = st.targets[0] if isinstance(st, ast.Assign) and len(st.targets) == 1 else getattr(st, 'target', None)
+                if isinstance(t, ast.Name) and _is_chain(st.value):
+                    out.add(f'{path}::{q}::~{t.id}={ast.unparse(st.value)}')
+    return out
+
+
+def _propagate_new_aliases(tree: ast.Module, path: str, inv) -> None:
+    """`x = self.a.b` ... uses of x, where the reference tree has no such local in this function: x IS self.a.b.
+
+    A local that only gives a shorter name to a parameter, a name or an attribute chain is read as that chain, provided the function never
+    re-binds x, the root of the chain or one of its prefixes, and no statement between the definition and a use calls a method directly on the
+    root object or hands the root object to a call (such a call may re-bind the attribute: the local would then be an older value)."""
+    from .cfg import CFG
+
+    for q, fn in _qualified_functions(tree):
+        if f'{path}::{q}' not in inv:
+            continue  # (new helpers are expanded into their callers first)
+        for _round in range(20):
+            names = [n for n in ast.walk(fn) if isinstance(n, ast.Name)]
+            inner = {id(m) for n in ast.walk(fn) if isinstance(n, (ast.FunctionDef, ast.Lambda)) and n is not fn for m in ast.walk(n) if m is not n}
+            comp_targets = {m.id for n in ast.walk(fn) if isinstance(n, ast.comprehension) for m in ast.walk(n.target) if isinstance(m, ast.Name)}
+            params = {a.arg for a in fn.args.args + fn.args.kwonlyargs + fn.args.posonlyargs} | ({fn.args.vararg.arg} if fn.args.vararg else set()) | ({fn.args.kwarg.arg} if fn.args.kwarg else set())
+            done = False
+            cfg = None
+            for d in [st for st in ast.walk(fn) if isinstance(st, ast.Assign) and id(st) not in inner]:
+                if not (len(d.targets) == 1 and isinstance(d.targets[0], ast.Name) and _is_chain(d.value)):
+                    continue
+                x = d.targets[0].id
+                chain = ast.unparse(d.value)
+                if f'{path}::{q}::~{x}={chain}' in inv or _EXPANSION_NAME.search(x):
+                    continue
+                root = chain.split('.')[0]
+                if x == root or x in params or x in comp_targets or root in comp_targets:
+                    continue
+                if sum(1 for n in names if n.id == x and isinstance(n.ctx, (ast.Store, ast.Del))) != 1:
+                    continue
+                if any(n.id == root and isinstance(n.ctx, (ast.Store, ast.Del)) for n in names):
+                    continue
+                uses = [n for n in names if n.id == x and isinstance(n.ctx, ast.Load)]
+                if not uses or any(id(n) in inner for n in uses):
+                    continue
+                # no store to the chain or to one of its prefixes anywhere in the function
+                prefixes = {'.'.join(chain.split('.')[:k]) for k in range(2, chain.count('.') + 2)}
+                if any(isinstance(n, ast.Attribute) and isinstance(n.ctx, (ast.Store, ast.Del)) and _is_chain(n) and ast.unparse(n) in prefixes for n in ast.walk(fn)):
+                    continue
+                cfg = cfg or CFG(fn)
+                nd = cfg.node_of(d)
+                use_nodes = {cfg.node_of(n) for n in uses}
+                if nd is None or None in use_nodes:
+                    continue
+                if not all(cfg.dominates(nd, u) for u in use_nodes):
+                    continue
+                if '.' in chain:
+                    def touches(c: ast.Call) -> bool:
+                        if isinstance(c.func, ast.Attribute) and isinstance(c.func.value, ast.Name) and c.func.value.id == root:
+                            return True
+                        return any(isinstance(a, ast.Name) and a.id == root for a in list(c.args) + [k.value for k in c.keywords])
+                    risky = {cfg.node_of(c) for c in ast.walk(fn) if isinstance(c, ast.Call) and id(c) not in inner and touches(c)} - {None}
+                    between = {r for r in risky if r != nd and cfg.reaches(nd, r) and any(cfg.path_avoiding(r, u, {nd}) for u in use_nodes)}
+                    # (a use in the same statement as such a call is evaluated with it: also refused)
+                    if between:
+                        continue
+                for n in uses:
+                    _replace_node(fn, n, ast.copy_location(copy.deepcopy(d.value), n))
+                for owner, field in _blocks(fn):
+                    stmts = getattr(owner, field)
+                    if any(st is d for st in stmts):
+                        setattr(owner, field, [st for st in stmts if st is not d] or [ast.copy_location(ast.Pass(), d)])
+                ast.fix_missing_locations(fn)
+                done = True
+                break
+            if not done:
+                break
+
+
 def normalise_module(tree: ast.Module, path: str) -> ast.Module:
     tree = NodeLevel(path).visit(tree)
     # helpers that the reference tree does not have are normalised first (several returns become one result), then expanded into
@@ -1745,6 +1853,8 @@ def normalise_module(tree: ast.Module, path: str) -> ast.Module:
         inline_unknown_helpers(tree, path)
         if any(getattr(fn, '_verif_expanded', 0) for fn in _functions(tree)):
             tree = _FoldStrings().visit(tree)  # (a constant argument of a helper may now stand in a formatted string)
+    if inv is not None and any('::~' in x for x in inv) and not os.environ.get('VERIF_NO_ALIAS'):
+        _propagate_new_aliases(tree, path, inv)
     for fn in reversed(list(_functions(tree))):
         BlockLevel(fn).run()
     if inv is not None and any(getattr(fn, '_verif_expanded', 0) for fn in _functions(tree)):
